@@ -2032,4 +2032,192 @@ mod tests {
             cov.need(&format!("numlen:{}", l));
         }
     }
+
+    #[test]
+    fn fgen_roundtrip_side_extremes() {
+        // 33-bit side channel at 32 bps (and depth+1 at every other depth), all verbatim/fixed kinds that can hold it
+        let mut built = 0;
+        for &bps in &BPS_LIST {
+            let max = ((1i64 << (bps - 1)) - 1) as i32;
+            let min = (-(1i64 << (bps - 1))) as i32;
+            for (l, r) in [(max, min), (min, max), (max, max), (min, min), (0, min), (-1, max)] {
+                for a in &ASSIGNS {
+                    for n in [1usize, 2, 16, 17] {
+                        for kind in [SubKind::Verbatim, SubKind::Constant, SubKind::Fixed(0), SubKind::Fixed(1)] {
+                            let mut f = plain_frame(vec![vec![l; n], vec![r; n]]);
+                            f.assign = a.clone();
+                            for s in f.subframes.iter_mut() {
+                                s.kind = if n == 1 && kind == SubKind::Fixed(1) { SubKind::Verbatim } else { kind.clone() };
+                                s.res.method = 1;
+                            }
+                            let spec = plain_stream(2, bps, 96000, vec![f]);
+                            match build(&spec) {
+                                Ok(b) => {
+                                    verify_valid(&spec, &b);
+                                    built += 1;
+                                    if *a != Assign::Independent && (l, r) == (max, min) {
+                                        let st = refdec::decode(&b.bytes).unwrap();
+                                        let side = if *a == Assign::SideRight { &st.frames[0].subframes[0] } else { &st.frames[0].subframes[1] };
+                                        assert_eq!(side.bps, bps + 1);
+                                        assert_eq!(side.raw[0], (1i64 << bps) - 1);
+                                    }
+                                }
+                                Err(e) => {
+                                    // only Fixed(0) can fail here: the residual equals the sample and must stay in (-2^31, 2^31-1]
+                                    assert!(kind == SubKind::Fixed(0) && bps == 32 && e.contains("residual"), "{} ({:?} {:?} bps {})", e, kind, a, bps);
+                                }
+                            }
+                        }
+                    }
+                }
+            }
+        }
+        println!("fgen test1/side-extremes: built {}", built);
+        assert!(built > 2000);
+    }
+
+    fn rand_sub(bps: u8, n: usize, seed: &mut u64) -> SubSpec {
+        let r = lcg(seed);
+        let kind = match r % 10 {
+            0 => SubKind::Verbatim,
+            1 => SubKind::Constant,
+            2..=6 => SubKind::Fixed(((r >> 4) % 5) as u8),
+            _ => {
+                let order = [1u8, 2, 8, 32, 3, 12][((r >> 4) % 6) as usize];
+                let precision = [2u8, 12, 15, 1, 7][((r >> 8) % 5) as usize];
+                let shift = [0u8, 5, 14, 15, 1][((r >> 12) % 5) as usize];
+                if precision == 1 {
+                    SubKind::Lpc { order, precision, shift, coefs: (0..order).map(|j| -((j as i32 + (r >> 40) as i32) & 1)).collect() }
+                } else {
+                    lpc_kind(order, precision, shift, ((r >> 16) % 3) as u32)
+                }
+            }
+        };
+        let wasted = [0u8, 0, 1, 3, 2][((r >> 20) % 5) as usize];
+        let porder = ((r >> 24) % 5) as u8;
+        let all = params_for(bps as u32);
+        let mut params = Vec::new();
+        let np = 1 + (lcg(seed) % (1u64 << porder)) as usize;
+        for _ in 0..np {
+            let q = lcg(seed);
+            params.push(match q % 8 {
+                5 => PartParam::Rice(((q >> 8) % 15) as u8),
+                6 => PartParam::Rice(((q >> 8) % 31) as u8),
+                7 => PartParam::Escape(Some(((q >> 8) % 32) as u8)),
+                i => all[(i % 5) as usize].clone(),
+            });
+        }
+        let _ = n;
+        SubSpec { kind, wasted, res: ResSpec { method: ((r >> 28) % 2) as u8, order: porder, params }, bad: SubBad::default() }
+    }
+
+    #[test]
+    fn fgen_roundtrip_random_space() {
+        let mut cov = Cover::new();
+        let mut seed = 3u64;
+        let rates = [8000u32, 44100, 48000, 96000, 1000, 12345, 655350, 700001, 192000, 22050];
+        for _ in 0..30000 {
+            let r = lcg(&mut seed);
+            let bps = BPS_LIST[(r % 7) as usize];
+            let nch = [1u8, 2, 2, 2, 3, 8][((r >> 4) % 6) as usize];
+            let variable = (r >> 8) % 2 == 1;
+            let n = [1usize, 2, 16, 17, 192, 256, 32, 64, 4096][((r >> 12) % 9) as usize];
+            if n == 4096 && (r >> 36) % 8 != 0 {
+                continue;
+            }
+            let nframes = 1 + ((r >> 16) % 3) as usize;
+            let mut sizes: Vec<usize> = Vec::new();
+            for i in 0..nframes {
+                let last = i + 1 == nframes;
+                let sz = if last {
+                    if (r >> 20) % 2 == 0 { n } else { (n / 2).max(1) }
+                } else if variable && (r >> 21) % 2 == 0 {
+                    [16usize, 48, 192, 100][(lcg(&mut seed) % 4) as usize]
+                } else {
+                    n.max(16)
+                };
+                sizes.push(sz);
+            }
+            if !variable {
+                // fixed blocking: STREAMINFO max = first frame's size
+                let first = sizes[0];
+                for s in sizes.iter_mut() {
+                    *s = (*s).min(first);
+                }
+                let k = sizes.len();
+                for s in sizes[..k - 1].iter_mut() {
+                    *s = first;
+                }
+            }
+            let rate = rates[((r >> 24) % rates.len() as u64) as usize];
+            let mut frames = Vec::new();
+            for &sz in &sizes {
+                let q = lcg(&mut seed);
+                let assign = if nch == 2 { ASSIGNS[(q % 4) as usize].clone() } else { Assign::Independent };
+                let subs: Vec<SubSpec> = (0..nch).map(|_| rand_sub(bps, sz, &mut seed)).collect();
+                let maxw = subs.iter().map(|s| s.wasted as u32).max().unwrap_or(0);
+                let z = maxw + if assign == Assign::MidSide && maxw > 0 { 1 } else { 0 };
+                let z = z.min(bps as u32 - 1);
+                let bits = bps as u32 - z;
+                let any_const = subs.iter().any(|s| s.kind == SubKind::Constant);
+                let pcm: Vec<Vec<i32>> = (0..nch)
+                    .map(|c| {
+                        let kind = if (any_const && assign != Assign::Independent) || subs[c as usize].kind == SubKind::Constant {
+                            CONST_SIGS[(lcg(&mut seed) % 4) as usize]
+                        } else {
+                            [0u32, 3, 4, 5, 6, 6, 6, 4][(lcg(&mut seed) % 8) as usize]
+                        };
+                        signal(kind, sz, bits, z, &mut seed)
+                    })
+                    .collect();
+                let mut f = plain_frame(pcm);
+                f.assign = assign;
+                f.subframes = subs;
+                f.bs = [BsCoding::Auto, BsCoding::Auto, BsCoding::Bits8, BsCoding::Bits16][((q >> 8) % 4) as usize].clone();
+                f.rate = [RateCoding::Auto, RateCoding::Auto, RateCoding::Streaminfo, RateCoding::KHz, RateCoding::Hz, RateCoding::DaHz][((q >> 12) % 6) as usize].clone();
+                f.bps = [BpsCoding::Auto, BpsCoding::Streaminfo][((q >> 16) % 2) as usize].clone();
+                if (q >> 20) % 4 == 0 {
+                    f.number_len = Some(3 + ((q >> 24) % 5) as usize);
+                }
+                frames.push(f);
+            }
+            let mut spec = plain_stream(nch, bps, rate, frames);
+            spec.variable = variable;
+            match (r >> 40) % 6 {
+                1 => spec.total = TotalSpec::Unknown,
+                2 => spec.md5 = Md5Spec::Zero,
+                3 => spec.seek = SeekSpec::EveryFrame,
+                4 => {
+                    spec.seek = SeekSpec::Placeholders(4);
+                    spec.padding = Some(9);
+                }
+                _ => {}
+            }
+            cov.run(&spec);
+        }
+        println!("fgen test1/random-space: built {} of {} tried", cov.built, cov.tried);
+        assert!(cov.built > 3000, "{}", cov.built);
+        for k in ["ch:1", "ch:2", "ch:3", "ch:8", "variable:true", "variable:false", "nframes:1", "nframes:2", "nframes:3", "n:1", "n:2", "n:17", "n:4096"] {
+            cov.need(k);
+        }
+        for k in ["Verbatim", "Constant", "Fixed0", "Fixed4", "Lpc"] {
+            cov.need(&format!("kind:{}", k));
+        }
+        for a in &ASSIGNS {
+            cov.need(&format!("assign:{:?}/bps32", a));
+            cov.need(&format!("assign:{:?}/bps4", a));
+        }
+        for o in [1, 2, 3, 8, 12, 32] {
+            cov.need(&format!("lpc-order:{}", o));
+        }
+        for p in [1, 2, 7, 12, 15] {
+            cov.need(&format!("lpc-precision:{}", p));
+        }
+        for s in [0, 1, 5, 14, 15] {
+            cov.need(&format!("lpc-shift:{}", s));
+        }
+        for po in 0..5 {
+            cov.need(&format!("porder:{}", po));
+        }
+    }
 }
